@@ -367,6 +367,8 @@ def arith(o, op, a, b):
     if op == "+" and isinstance(a, tuple) and isinstance(b, tuple) and a[0] == "str" and b[0] == "str":
         return ("str", a[1] + b[1])          # concatenation of concrete strings
     if not (is_int(a) and is_int(b)):
+        if any(is_bool(x) or isinstance(x, (Fn, Obj)) for x in (a, b)) or (op in "-/%" and any(isinstance(x, tuple) and x[0] == "str" for x in (a, b))):
+            raise Fail("type", "`%s` is not defined on these operand kinds" % op)       # no operator impl accepts them (C02's program family)
         raise Unsupported("arithmetic on non-int operands: %r %s %r" % (a, op, b))
     if not is_sym(a) and not is_sym(b):
         if op == "+":
@@ -420,6 +422,8 @@ def arith(o, op, a, b):
 
 def compare(op, a, b):
     if not (is_int(a) and is_int(b)):
+        if any(is_bool(x) or isinstance(x, (Fn, Obj)) for x in (a, b)):
+            raise Fail("type", "ordering is not defined on these operand kinds")
         raise Unsupported("comparison of non-int operands")
     if not is_sym(a) and not is_sym(b):
         return {"<": a < b, "<=": a <= b, ">": a > b, ">=": a >= b}[op]
@@ -429,6 +433,8 @@ def compare(op, a, b):
 
 def negate(o, a):
     if not is_int(a):
+        if is_bool(a) or isinstance(a, (Fn, Obj)) or (isinstance(a, tuple) and a[0] == "str"):
+            raise Fail("type", "cannot negate this kind")
         raise Unsupported("negation of a non-int")
     if not is_sym(a):
         if a == I32_MIN:
@@ -446,6 +452,8 @@ def logic_not(a):
 
 def logic(op, a, b):
     if not (is_bool(a) and is_bool(b)):
+        if any(is_int(x) or isinstance(x, (Fn, Obj)) or (isinstance(x, tuple) and x[0] == "str") for x in (a, b)):
+            raise Fail("type", "logic on non-bool operands")
         raise Unsupported("logic on non-bool operands")
     if isinstance(a, bool) and isinstance(b, bool):
         return {"&&": a and b, "||": a or b, "^": a != b}[op]
